@@ -181,7 +181,7 @@ func runRandom(o *vrt.Obs, p params) {
 	lens := []int{0, 1, 40, 200, 1000, 3000}
 	files := []int{0, 0, 0, 1, 300, 2000}
 	var last string
-	for i := p.Lo; i < p.Hi && len(o.Violations) == 0; i++ {
+	one := func(o *vrt.Obs, i int) {
 		r := vrt.Rand(p.Seed, "c10-random", i)
 		n := 10 + r.Intn(51)
 		m := newModel(p.SendOnly)
@@ -217,7 +217,23 @@ func runRandom(o *vrt.Obs, p params) {
 			hist = append(hist, cand)
 		}
 		runHistory(o, fmt.Sprintf("%s/rnd%d", modeName(p.SendOnly), i), p.SendOnly, hist, true)
-		last = histString(hist)
+		if i == p.Hi-1 {
+			last = histString(hist)
+		}
+	}
+	if span := p.Hi - p.Lo; span > 0 && (p.Lo/span)%4 == 3 {
+		// every fourth batch: three mailboxes (directories of their own) are worked on by three goroutines at the same
+		// time, as a gateway with several users does: each history must compare with its model as if it ran alone
+		vrt.Parallel(o, 3, func(g int, po *vrt.Obs) {
+			for i := p.Lo + g; i < p.Hi && len(po.Violations) == 0; i += 3 {
+				one(po, i)
+				po.Count("histories_run_while_other_mailboxes_were_in_use", 1)
+			}
+		})
+	} else {
+		for i := p.Lo; i < p.Hi && len(o.Violations) == 0; i++ {
+			one(o, i)
+		}
 	}
 	o.Sample = map[string]any{"kind": "random", "send_only": p.SendOnly, "range": []int{p.Lo, p.Hi}, "last_history": last}
 }
